@@ -10,14 +10,17 @@ from ..refs import units_ref as R
 from ..refs import unit_gens as G
 
 ID = "C06"
-RULE = ("Operand pairs (same unit / same dimension other prefix or unit / compound expression / different dimension / plain "
-        "number on either side; scalars and arrays) under + - * / neg and ** (int -3..3, (n,d) pairs, Fraction objects, "
-        "exactly representable floats, and 1/3-type floats). Oracle: B(q)=q.value()*F(q.units()) and the unit atoms of "
-        "q.units(), both read with the independent table lexer: B(a op b) = B(a) op B(b); sum carries the left units; "
-        "product/quotient add/subtract unit exponents; power multiplies them exactly (identically for every spelling "
-        "of the exponent); a result of zero total dimension keeps no dimensional unit; +/- across dimensions raise. "
-        "Non-trivial: operands in different units or a compound unit, or cancellation, or a non-integer exponent, or a "
-        "reflected operator. Distinct = distinct case JSON.")
+RULE = (
+    'Operand pairs (same unit / same dimension other prefix or unit / compound expression / different dimension / '
+    'plain number on either side; scalars and arrays) under + - * / neg and ** (int -3..3, (n,d) pairs, Fraction '
+    'objects, exactly representable floats, and 1/3-type floats). Oracle: B(q)=q.value()*F(q.units()) and the '
+    'unit atoms of q.units(), both read with the independent table lexer: B(a op b) = B(a) op B(b); sum carries '
+    'the left units; product/quotient add/subtract unit exponents; power multiplies them exactly (identically for '
+    'every spelling of the exponent); a result of zero total dimension keeps no dimensional unit; +/- across '
+    'dimensions raise. Non-trivial: operands in different units or a compound unit, or cancellation, or a '
+    'non-integer exponent, or a reflected operator. Later rounds: signed denominators in (n,d) exponents; integer '
+    'numpy arrays with dict units; reciprocal dimensions in a sum. Distinct = distinct case JSON.'
+)
 ASSUMPTIONS = [
     "linear table units only (temperature/logarithmic arithmetic is C05)",
     "cases whose base values leave [1e-300,1e300] are discarded (float range)",
